@@ -812,6 +812,32 @@ func (x *Exec) trySpeculate(fr *frame, blk *ssa.BasicBlock, c *Term, stop *ssa.B
 	mark := len(x.journal)
 	oblMark := len(x.obls)
 	pathMark := len(x.path)
+	// SSA registers of this frame: an arm that runs through a loop back edge re-assigns registers defined before the
+	// branch (and registers defined in the loop body are live after the loop exit), so the register file is part of
+	// the speculated state: restored between the arms and on abort, merged like memory on success.
+	locals0 := make(map[ssa.Value]Value, len(fr.locals))
+	for k, v := range fr.locals {
+		locals0[k] = v
+	}
+	restoreLocals := func() {
+		for k := range fr.locals {
+			if _, ok := locals0[k]; !ok {
+				delete(fr.locals, k)
+			}
+		}
+		for k, v := range locals0 {
+			fr.locals[k] = v
+		}
+	}
+	changedLocals := func() map[ssa.Value]Value {
+		ch := map[ssa.Value]Value{}
+		for k, v := range fr.locals {
+			if old, ok := locals0[k]; !ok || !sameLocal(old, v) {
+				ch[k] = v
+			}
+		}
+		return ch
+	}
 	varSeq := make(map[string]int, len(x.ts.varSeq))
 	for k, v := range x.ts.varSeq {
 		varSeq[k] = v
@@ -828,6 +854,7 @@ func (x *Exec) trySpeculate(fr *frame, blk *ssa.BasicBlock, c *Term, stop *ssa.B
 	}
 	abort := func(reason string) {
 		x.undoTo(mark)
+		restoreLocals()
 		x.journaling--
 		x.specBlocks = x.specBlocks[:len(x.specBlocks)-1]
 		x.obls = x.obls[:oblMark]
@@ -886,11 +913,15 @@ func (x *Exec) trySpeculate(fr *frame, blk *ssa.BasicBlock, c *Term, stop *ssa.B
 		orig[cellRef{je.obj, je.idx}] = je.old
 	}
 	x.undoTo(mark)
+	localsA := changedLocals()
+	restoreLocals()
 	b, ok, why := runArm(blk.Succs[1], x.ts.Not(c))
 	if !ok {
 		abort(why)
 		return nil, nil, false
 	}
+	localsB := changedLocals()
+	restoreLocals()
 	for i := len(x.journal) - 1; i >= mark; i-- {
 		je := x.journal[i]
 		orig[cellRef{je.obj, je.idx}] = je.old
@@ -938,6 +969,49 @@ func (x *Exec) trySpeculate(fr *frame, blk *ssa.BasicBlock, c *Term, stop *ssa.B
 			mphis[i] = m
 		}
 	}
+	// merge the register file
+	mergedLocals := map[ssa.Value]Value{}
+	for k, va := range localsA {
+		vb, okB := localsB[k]
+		if !okB {
+			if old, ok := locals0[k]; ok {
+				vb = old
+			} else {
+				mergedLocals[k] = va // defined in one arm only: not live at the join (dominance)
+				continue
+			}
+		}
+		if sameLocal(va, vb) {
+			mergedLocals[k] = va
+			continue
+		}
+		m, ok := x.mergeValue(c, va, vb)
+		if !ok {
+			// not expressible as a value: only acceptable if the register is dead at the join, which we cannot tell
+			abort(fmt.Sprintf("unmergeable register values %T / %T", va, vb))
+			return nil, nil, false
+		}
+		mergedLocals[k] = m
+	}
+	for k, vb := range localsB {
+		if _, done := localsA[k]; done {
+			continue
+		}
+		old, ok := locals0[k]
+		if !ok {
+			mergedLocals[k] = vb
+			continue
+		}
+		m, ok := x.mergeValue(c, old, vb)
+		if !ok {
+			abort(fmt.Sprintf("unmergeable register values %T / %T", old, vb))
+			return nil, nil, false
+		}
+		mergedLocals[k] = m
+	}
+	for k, v := range mergedLocals {
+		fr.locals[k] = v
+	}
 	x.journaling--
 	x.specBlocks = x.specBlocks[:len(x.specBlocks)-1]
 	for ref, v := range merged {
@@ -953,6 +1027,40 @@ func (x *Exec) trySpeculate(fr *frame, blk *ssa.BasicBlock, c *Term, stop *ssa.B
 	}
 	x.setPhis(fr, join, mphis)
 	return nil, join, true
+}
+
+// sameLocal: cheap identity test of two register values (pointer-equal terms, equal scalars).
+func sameLocal(a, b Value) (eq bool) {
+	defer func() {
+		if recover() != nil {
+			eq = false
+		}
+	}()
+	switch va := a.(type) {
+	case Agg:
+		vb, ok := b.(Agg)
+		if !ok || len(va.Cells) != len(vb.Cells) {
+			return false
+		}
+		for i := range va.Cells {
+			if !sameLocal(va.Cells[i], vb.Cells[i]) {
+				return false
+			}
+		}
+		return true
+	case Tuple:
+		vb, ok := b.(Tuple)
+		if !ok || len(va) != len(vb) {
+			return false
+		}
+		for i := range va {
+			if !sameLocal(va[i], vb[i]) {
+				return false
+			}
+		}
+		return true
+	}
+	return a == b
 }
 
 type cellRef struct {
